@@ -51,7 +51,7 @@ Qed.
 Theorem C14_key_never_sent :
   forall rf t, owns_key all_rules key_holders t -> impl_auto all_rules rf MSend t = false.
 Proof. intros rf t. apply key_never_sent. apply k9_holders_not_send. pose proof C14_table_wf as W. unfold wf_key_known in W.
-       apply andb_true_iff in W. destruct W as [W _]. apply andb_true_iff in W. destruct W as [_ W]. exact W. Qed.
+       apply andb_true_iff in W. destruct W as [W _]. apply andb_true_iff in W. destruct W as [W _]. apply andb_true_iff in W. destruct W as [_ W]. exact W. Qed.
 
 (* not vacuous: the error of a failed try (it hands the key back) inside a PoisonError inside a Mutex inside a Vec
    inside a boxed collection owns a key; so does a guard behind `&mut` *)
